@@ -62,12 +62,15 @@ func (p *pp) Print(args ...interface{}) {
 	defer p.buf.SetMode(p.buf.GetMode())
 	np := newPrinter()
 	np.buf = p.buf
+	// The nested printer is subject to the enclosing Safe()/Unsafe().
+	np.override = p.override
 	// Take the buffer back even if a (nested) panic propagates out of
 	// the nested printer and is caught further up: p.buf is stale
 	// after np has appended to it.
 	defer func() {
 		p.buf = np.buf
 		np.buf = buffer{}
+		np.override = noOverride
 		np.free()
 	}()
 	np.doPrint(args)
@@ -77,10 +80,12 @@ func (p *pp) Printf(format string, arg ...interface{}) {
 	defer p.buf.SetMode(p.buf.GetMode())
 	np := newPrinter()
 	np.buf = p.buf
-	// See the comment in Print.
+	np.override = p.override
+	// See the comments in Print.
 	defer func() {
 		p.buf = np.buf
 		np.buf = buffer{}
+		np.override = noOverride
 		np.free()
 	}()
 	np.doPrintf(format, arg)
